@@ -368,8 +368,17 @@ func (p *Program) classifyErrValue(v ssa.Value, b *ssa.BasicBlock, depth int) re
 		}
 		return k
 	case *ssa.Call:
-		if fn := x.Call.StaticCallee(); fn != nil && p.alwaysNonNilErr(fn) {
-			return retError
+		if fn := x.Call.StaticCallee(); fn != nil {
+			if p.alwaysNonNilErr(fn) {
+				return retError
+			}
+			// wrappers that return their error argument or a fresh error (maybeConvertDbError, convertErr):
+			// non-nil in, non-nil out
+			if pi := p.nonNilPreserving(fn); pi >= 0 && pi < len(x.Call.Args) && depth < 6 {
+				if p.classifyErrValue(x.Call.Args[pi], b, depth+1) == retError {
+					return retError
+				}
+			}
 		}
 	case *ssa.Extract:
 		if c, ok := x.Tuple.(*ssa.Call); ok {
@@ -493,4 +502,61 @@ func effectiveResult(r *ssa.Return, idx int) ssa.Value {
 		i = len(b.Instrs)
 	}
 	return v
+}
+
+// nonNilPreserving: fn has an error parameter p such that every return's error result is either p itself or a
+// definitely non-nil error. Returns the parameter index (-1 if not such a wrapper).
+func (p *Program) nonNilPreserving(fn *ssa.Function) int {
+	if p.nnPresCache == nil {
+		p.nnPresCache = map[*ssa.Function]int{}
+	}
+	if v, ok := p.nnPresCache[fn]; ok {
+		return v
+	}
+	p.nnPresCache[fn] = -1
+	ei := errResultIndex(fn.Signature)
+	if ei < 0 || len(fn.Blocks) == 0 {
+		return -1
+	}
+	res := -1
+	for i, prm := range fn.Params {
+		if !isErrorType(prm.Type()) {
+			continue
+		}
+		ok := true
+		n := 0
+		for _, b := range fn.Blocks {
+			for _, ins := range b.Instrs {
+				r, isR := ins.(*ssa.Return)
+				if !isR || ei >= len(r.Results) {
+					continue
+				}
+				n++
+				var check func(v ssa.Value, d int) bool
+				check = func(v ssa.Value, d int) bool {
+					if v == ssa.Value(prm) {
+						return true
+					}
+					if ph, isPhi := v.(*ssa.Phi); isPhi && d < 4 {
+						for _, e := range ph.Edges {
+							if !check(e, d+1) {
+								return false
+							}
+						}
+						return true
+					}
+					return p.classifyErrValue(v, b, 0) == retError
+				}
+				if !check(effectiveResult(r, ei), 0) {
+					ok = false
+				}
+			}
+		}
+		if ok && n > 0 {
+			res = i
+			break
+		}
+	}
+	p.nnPresCache[fn] = res
+	return res
 }
